@@ -297,6 +297,17 @@ pub struct ThreadCase {
 }
 
 fn thread_case() -> impl Strategy<Value = ThreadCase> {
+	// one workload in four grows the index under the worker threads (C09's key sets)
+	prop_oneof![3 => thread_case_plain().boxed(), 1 => (thread_case_plain(), super::c09::scenario(14, 200)).prop_map(|(mut c, g)| {
+		let mut sc = g;
+		sc.ops.retain(|o| matches!(o, Op::Commit(_)));
+		sc.cfg.always_flush = true;
+		c.sc = sc;
+		c
+	}).boxed()]
+}
+
+fn thread_case_plain() -> impl Strategy<Value = ThreadCase> {
 	(mixed_cfg(2, false), prop_oneof![1 => Just(0u16), 3 => 50u16..3000], proptest::collection::vec(prop_oneof![1 => Just(0u16), 3 => 100u16..1500, 2 => 1500u16..6000], 1..6), 1u8..3, any::<u64>()).prop_flat_map(
 		|(mut cfg, msync_delay_us, pauses_us, stride, seed)| {
 			cfg.always_flush = true;
